@@ -51,6 +51,10 @@ chk("C08", "codecsim", "fault_enumeration",
     "Per plan one or two valid streams (library writer and the reference's seed-driven encoder, with and without CRC) are damaged exhaustively: EOF after every prefix length, every single-bit flip (streams <= 512 B, seeded sample above), header edits (negative/zero/too small/too large sizes, CRC bytes), splices, dropped/duplicated bytes, trailing bytes, reader I/O error at offset k, plus random byte strings; each damaged stream is read with plan-chosen buffer sizes. Oracle against the independent decoder: no panic, termination within a step budget, at most the declared number of bytes each equal to the canonical decoding, Close()==nil only if CRC and size hold and the output is canonical, and Close()==nil required for undamaged streams.",
     "Trusted base: ref/lzhuf decoder/encoder (validated on the five golden files; greedy mode reproduces them byte for byte). Termination is a step budget, not a clock; a spin inside one call is left to the wall-clock watchdog.",
     "fault enumeration over stored/transported streams with an independent reference decoder", "DESIGN.md 3 C08")
+chk("C13", "agwsim", "exploration",
+    "The real agwpe package (TNC reader, demux levels, chain goroutines, polling) talks over simulated TCP to an independently written reactive AGWPE TNC model: seeded segmentation of both byte streams (including inside the 36-byte header and the data field), reply latencies and orders, MAXFRAME/outstanding-frame draining on the simulated clock, interleaved frames for other callsigns and ports, remote disconnects, refusals, malformed frames and link cuts; scripted clients register, dial (0-7 digis) or accept, write, read with buffers from 1 B, flush and close at seed-chosen instants. Regimes paced / burst / coalesced are part of every stream signature. Oracle: Read = concatenated D payloads of that connection in order, every host frame well-formed with the right port/calls/PID, D payloads = successful Writes, X before C/v, Y polled, Flush only after 0 outstanding, d on Close, nothing foreign delivered, no crash.",
+    TB + " The TNC model is written from the public AGWPE socket interface description, not from the library. Known finding: the drop-when-full demux loses frames in the burst/coalesced regimes; the paced regime keeps the strict stream oracle.",
+    "deterministic simulation against a reactive TNC model (seeded segmentation, pacing, reply orders, malformed frames)", "DESIGN.md 3 C13")
 chk("C15", "telnetsim", "exploration",
     "Real telnet.Listen/Accept and Dial/DialTimeout/DialContext/DialURL on the simulated network: seeded segmentation and coalescing of prompts, replies and first payloads (including payload in the same segment as the last login line), library-vs-library, library dialler vs scripted conforming and hostile servers (silent, partial prompt, garbage, close at offset k, endless drip, SYN never answered), scripted client vs library listener. Oracle: RemoteCall equals the dialled callsign, post-login byte streams complete and unmodified both ways, and every dial call has returned when the simulated clock reaches its deadline + 1 s.",
     TB + " net import swapped for the simulated network shim.",
